@@ -518,6 +518,9 @@ class Timing:
                      + "; ".join(f"{e.kind} {exc_name(e.value) if e.kind == 'raise' else ''} if {cond_str(e.cond)[:80]}" for e in ex))
                 continue
             v = ex[0].value
+            if v[0] == "comp" and v[1] == "list":
+                self._check_fold_comp(r, bf, ex[0], v, c, ("param", ps[1]), result)
+                continue
             if not (v[0] == "call" and v[1][0] in ("closure", "func") and ".<locals>." in v[1][1]):
                 fail(r, ctx, bf, ex[0].node, f"dispatch for {c.name} does not call a per-kind fold helper: {show(v)[:200]}")
                 continue
@@ -532,8 +535,34 @@ class Timing:
             self._check_fold(r, helper, hs, c, ("param", ps[1]), ("param", ps[2]), result)
         return result
 
+    def _check_fold_comp(self, r: Rule, where, ex, v: Term, c: ClassInfo, datas: Term, result: dict) -> None:
+        """[K.from_parsed_data(d) for d in datas] -- admissible only for builders that take no predecessor / tempo map."""
+        ctx = self.ctx
+        want = c.find_method("from_parsed_data")
+        gens = v[3]
+        if want is None or len(want.params()) != 2:
+            fail(r, ctx, where, ex.node, f"{c.name} events are built by a comprehension, but their builder needs the predecessor and the tempo map: "
+                                         f"a comprehension cannot thread them")
+            return
+        if len(gens) != 1 or gens[0][2] or strip(gens[0][1]) != strip(datas):
+            fail(r, ctx, where, ex.node, f"{c.name} comprehension must visit every parsed datum once, in order, unfiltered; found {show(v)[:160]}")
+            return
+        bv = gens[0][0]
+        sp = ctx.ev.evaluate(want, {want.params()[0]: ("class", c.qual), want.params()[1]: bv}, None, 0)
+        rt = sp.ret_term()
+        if rt is None or strip(v[2]) != strip(rt):
+            fail(r, ctx, where, ex.node, f"{c.name} comprehension element is not the kind's own builder applied to the datum: {show(v[2])[:160]}")
+            return
+        result[c.qual] = want
+        self.anchor_ctor = (where, None, v[2], bv)
+
     def _check_fold(self, r: Rule, helper: FuncInfo, hs: Summary, c: ClassInfo, datas: Term, third: Term, result: dict) -> None:
         ctx = self.ctx
+        if not hs.loops:
+            exs = live_exits(hs)
+            if len(exs) == 1 and exs[0].kind == "ret" and exs[0].value[0] == "comp" and exs[0].value[1] == "list":
+                self._check_fold_comp(r, helper, exs[0], exs[0].value, c, datas, result)
+                return
         if len(hs.loops) != 1:
             fail(r, ctx, helper, helper.node, f"fold helper for {c.name} must be a single loop over the data; found "
                                               f"{len(hs.loops)} loops")
